@@ -88,7 +88,7 @@ impl Profile for ProxyTwin {
                 let code = rng.below(wp.codes.len() as u64) as usize;
                 let pe = reg.get(&wp.codes[code].cid).unwrap();
                 let h = pe.spec.of_kind(Kind::Instantiate).next().unwrap();
-                let args = sg.args_for(rng, h, 0);
+                let args = sg.args_for(rng, pe.spec.cid, h, 0);
                 ops.push(Op::Twin(Twin {
                     hid: "instantiate".into(),
                     code,
@@ -108,7 +108,7 @@ impl Profile for ProxyTwin {
                 continue;
             }
             let h = *rng.pick(&hs);
-            let args = sg.args_for(rng, h, 0);
+            let args = sg.args_for(rng, &c.cid, h, 0);
             let same: Vec<usize> = wp.codes.iter().enumerate().filter(|(_, k)| k.cid == c.cid).map(|(i, _)| i).collect();
             ops.push(Op::Twin(Twin {
                 hid: h.id(),
